@@ -244,6 +244,8 @@ def _build_block(helper, call, form, target, caller_locals):
     for s in body:
         r = tr.visit(s)
         new_body.extend(r if isinstance(r, list) else [r])
+    if form != "return" and new_body and isinstance(new_body[-1], LeaveBlock):
+        new_body.pop()  # leaving at the very end of the block is no early exit
     if form == "return":
         new_body.append(ast.copy_location(ast.Return(value=ast.Constant(value=None)), call))
     elif form == "assign":
@@ -320,6 +322,23 @@ def expand(repo, finfo, keep=(), depth=3, pre=None):
             nonlocal changed
             out = []
             for st in stmts:
+                # `if [not] self._h(...):` - the helper's result is taken first, then tested (an if evaluates its test once)
+                if isinstance(st, ast.If):
+                    test = st.test.operand if isinstance(st.test, ast.UnaryOp) and isinstance(st.test.op, ast.Not) else st.test
+                    hlp = _helper_for(repo, finfo, test, keep) if isinstance(test, ast.Call) else None
+                    straight = hlp is not None and all(isinstance(x, (ast.Assign, ast.AugAssign, ast.AnnAssign, ast.Expr)) for x in hlp.node.body[:-1]) and isinstance(hlp.node.body[-1], ast.Return)
+                    if straight:  # helpers with branches / loops / handlers stay calls: their result is one opaque truth value
+                        tmp = f"_h{len(used)}_{getattr(st, 'lineno', 0)}"
+                        if tmp not in locals_:
+                            pre_assign = ast.copy_location(ast.Assign(targets=[ast.Name(id=tmp, ctx=ast.Store())], value=test), st)
+                            name = ast.copy_location(ast.Name(id=tmp, ctx=ast.Load()), test)
+                            if test is st.test:
+                                st.test = name
+                            else:
+                                st.test.operand = name
+                            ast.fix_missing_locations(pre_assign)
+                            out.extend(rewrite([pre_assign]))
+                            changed = True
                 m = _match(st)
                 if m is not None:
                     form, call, target = m
